@@ -170,8 +170,9 @@ def prepareForTx (m : μ) (pkt : PacketParams) (power : Int) (payload : Bytes) :
   call (rk.setPacketParams { pkt with payloadLength := payload.length })
   call (rk.setChannel (rk.freqOf m))
   call (rk.setPayload payload)
-  setMode .transmit
+  -- the mode is recorded only after its IRQ routing has been programmed (fix-irq-mode)
   call (rk.setIrqParams (some .transmit))
+  setMode .transmit
 
 /-- the error path shared by `tx`, `complete_rx`, `cad`: force standby, then report the error -/
 def failToStandby {α : Type} (e : RadioError) : M σ α := do
@@ -208,8 +209,9 @@ def prepareForRx (mode : RxMode) (m : μ) (pkt : PacketParams) : M σ Unit := do
   call (rk.setModulationParams d.rk m)
   call (rk.setPacketParams pkt)
   call (rk.setChannel (rk.freqOf m))
-  setMode (.receive mode)
+  -- the mode is recorded only after its IRQ routing has been programmed (fix-irq-mode)
   call (rk.setIrqParams (some (.receive mode)))
+  setMode (.receive mode)
 
 /-- `rx_switch_channel` as it was before the fix (`repo-fixes/…rx_switch_channel…`): no `ensure_ready` -/
 def rxSwitchChannelUnfixed (freq : Nat) : M σ Unit := do
@@ -296,8 +298,9 @@ def prepareForCad (m : μ) : M σ Unit := do
   let d ← get
   call (rk.setModulationParams d.rk m)
   call (rk.setChannel (rk.freqOf m))
-  setMode .cad
+  -- the mode is recorded only after its IRQ routing has been programmed (fix-irq-mode)
   call (rk.setIrqParams (some .cad))
+  setMode .cad
 
 /-- `cad` -/
 def cad (m : μ) : M σ Bool := do
